@@ -109,6 +109,6 @@ MapScripts ==
        BM("get", "clm", Val("str", "a", NONE, 0)), BM("get", "clm", Val("int", "zz", W0, 0)), BM("get", "hdr", Val("bool", NONE, 0, 0)),
        BM("set", "clm", [Val("json", "j", "{\"a\":", 0) EXCEPT !.jcls = "malformed"]), BM("del", "clm", Val("int", "a", W0, 0)) >> }
 
-C14Scripts == VerifyScripts \cup PolicyScripts \cup BuilderScripts \cup JwkScripts \cup MapScripts
-MCSpec == ISpecWith(C14Scripts)
+\* (families, not their union: see ISpecFam in Interp.tla)
+MCSpec == ISpecFam(<<VerifyScripts, PolicyScripts, BuilderScripts, JwkScripts, MapScripts>>)
 =============================================================================
